@@ -1,7 +1,7 @@
 (* ===== C17 : required variables, name resolution order and '.' expansion ===== *)
 From Coq Require Import List NArith ZArith QArith Qcanon Bool Arith.
 Import ListNotations.
-Require Import Struct Layered Mat Tok Parser Parser2 Parser3 ResolveLaws.
+Require Import Struct Layered Mat Tok Parser Parser2 Parser3 MatSep ResolveLaws RequiredVars.
 Open Scope nat_scope.
 
 (* names resolve to the data first, then the caller's context, then the built-in transforms; the reported source is the layer
@@ -38,6 +38,40 @@ Example C17_example :
   lget_named [99]%N [] (mat_context [([97]%N, 1)] [([97]%N, 2); ([98]%N, 3)] [([98]%N, 4); ([99]%N, 5)]) = Some (5, [ktransforms]).
 Proof. vm_compute. auto. Qed.
 
+(* the same with the reported names as a LIST (`required_vars`, compared with Formula.required_variables on every case of the `required`
+   stream): on the data restricted to exactly those columns no factor fails to evaluate; with any ONE of them taken away materialization
+   ends in the factor-evaluation error; a column that is not reported can be taken away freely.  `consistent`: an expression text has one
+   kind -- it fails exactly for a data column whose name is also a literal (known finding C15-column-named-1). *)
+Theorem C17_required_list_sufficient : forall d n c terms,
+  (forall v, In v (required_vars terms) -> lookup d v <> None) -> build (restrict d (required_vars terms)) n c terms <> inr EEval.
+Proof. exact required_vars_sufficient. Qed.
+Theorem C17_required_list_necessary : forall d n c terms v,
+  consistent (concat terms) -> In v (required_vars terms) -> build (without d v) n c terms = inr EEval.
+Proof. exact required_vars_necessary. Qed.
+Theorem C17_unreported_column_irrelevant : forall d n c terms v,
+  ~ In v (required_vars terms) -> (forall f, In f (pool_of terms) -> missing d f = false) -> build (without d v) n c terms <> inr EEval.
+Proof. exact unreported_column_is_irrelevant. Qed.
+(* structured formulas (several parts evaluated jointly) *)
+Theorem C17_required_list_sufficient_parts : forall d n c (parts : list (list Mat.term)),
+  (forall v, In v (required_vars (concat parts)) -> lookup d v <> None) ->
+  build_parts (restrict d (required_vars (concat parts))) n c parts <> inr EEval.
+Proof. exact required_vars_sufficient_parts. Qed.
+Theorem C17_required_list_necessary_parts : forall d n c (parts : list (list Mat.term)) v,
+  consistent (concat (concat parts)) -> In v (required_vars (concat parts)) -> build_parts (without d v) n c parts = inr EEval.
+Proof. exact required_vars_necessary_parts. Qed.
+Example C17_required_example :
+  let a := Build_factor [97]%N FLookup in let b := Build_factor [98]%N FLookup in let two := Build_factor [50]%N FLit in
+  let d := [([97]%N, CNum [Some (Q2Qc 1)]); ([98]%N, CNum [Some (Q2Qc 2)]); ([99]%N, CNum [Some (Q2Qc 3)])] in
+  required_vars [[two; a]; [a; b]] = [[97]; [97]; [98]]%N /\ map fst (restrict d (required_vars [[two; a]; [a; b]])) = [[97]; [98]]%N /\
+  build (without d [98]%N) 1 (Build_cfg true NaDrop []) [[two; a]; [a; b]] = inr EEval.
+Proof. vm_compute. auto. Qed.
+
+Print Assumptions C17_required_list_sufficient.
+Print Assumptions C17_required_list_necessary.
+Print Assumptions C17_unreported_column_irrelevant.
+Print Assumptions C17_required_list_sufficient_parts.
+Print Assumptions C17_required_list_necessary_parts.
+Print Assumptions C17_required_example.
 Print Assumptions C17_resolution_order.
 Print Assumptions C17_reported_value_is_looked_up_value.
 Print Assumptions C17_dot_expansion_exact.
